@@ -13,6 +13,7 @@ var c03Kids = []string{
 	`<a href="/u">%w</a> `,
 	`<a href="javascript:void(0)">%w</a> `,
 	"<br>",
+	"<br><br>",
 	"<b></b>",
 	"<b>%w</b> ",
 	`<font color="red">%w</font> `,
